@@ -167,12 +167,12 @@ func vfC15DrawText(t *rapid.T) (text []byte, kinds map[string]int) {
 
 	shape := rapid.IntRange(0, 99).Draw(t, "shape")
 	switch {
-	case shape < 4:
+	case shape >= 97:
 		kinds["doc:empty"]++
 		buf.WriteString(rapid.SampledFrom([]string{"", "\n", " ", "\r\n\r\n", "\ufeff", "\t\n \n"}).Draw(t, "empty"))
 
 		return buf.Bytes(), kinds
-	case shape < 8:
+	case shape >= 93:
 		kinds["doc:binary"]++
 		buf.WriteString(rapid.SampledFrom(vfC15Binaries).Draw(t, "blob"))
 		buf.Write(rapid.SliceOfN(rapid.Byte(), 0, 200).Draw(t, "blob_tail"))
@@ -185,7 +185,7 @@ func vfC15DrawText(t *rapid.T) (text []byte, kinds map[string]int) {
 		buf.WriteString("\xef\xbb\xbf")
 	}
 
-	if shape < 18 {
+	if shape >= 83 {
 		// An HTML page, possibly after blank lines and comments.
 		kinds["doc:html"]++
 		for i, n := 0, rapid.IntRange(0, 3).Draw(t, "html_pre"); i < n; i++ {
@@ -204,6 +204,9 @@ func vfC15DrawText(t *rapid.T) (text []byte, kinds map[string]int) {
 	}
 
 	n := rapid.IntRange(0, 24).Draw(t, "lines")
+	if n == 0 {
+		kinds["doc:no_lines"]++
+	}
 	for i := 0; i < n; i++ {
 		label := fmt.Sprintf("l%d", i)
 		line, kind := vfC15DrawLine(t, label, &titles)
@@ -221,7 +224,7 @@ func vfC15DrawText(t *rapid.T) (text []byte, kinds map[string]int) {
 	}
 
 	text = buf.Bytes()
-	if shape >= 90 && len(text) > 0 {
+	if shape >= 70 && len(text) > 0 {
 		// Cut the text at an arbitrary byte, as a short transfer would.
 		kinds["doc:cut"]++
 		text = text[:rapid.IntRange(0, len(text)).Draw(t, "cut")]
@@ -375,8 +378,10 @@ func vfC15ParserCase(t *rapid.T, text []byte, kinds map[string]int) {
 
 	bufLen, sizes, eofWithData := vfC15DrawIO(t, "io")
 	other := vfC15RunParser(text, bufLen, sizes, eofWithData)
-	if len(exps) == 1 || bufLen <= vfC15LongLimit {
-		om := vfC15CheckParse(t, text, other, exps, fmt.Sprintf("parse(buf=%d chunks=%v eofWithData=%v)", bufLen, sizes, eofWithData))
+	om := vfC15CheckParse(t, text, other, exps, fmt.Sprintf("parse(buf=%d chunks=%v eofWithData=%v)", bufLen, sizes, eofWithData))
+	if vfC15Relevant(text)&vfC15PolLongOK == 0 {
+		// (For a line at or over the token limit the outcome is left open, and
+		// may then depend on how the bytes arrive.)
 		if om.Err != matched.Err || !bytes.Equal(om.Norm, matched.Norm) || other.Res.Checksum != prod.Res.Checksum {
 			t.Fatalf("result depends on buffer size / read chunking (buf=%d chunks=%v): %s count=%d err=%v vs %s count=%d err=%v; text %s",
 				bufLen, sizes, vfC15Short(other.Dst), other.Res.RulesCount, other.Err,
